@@ -14,9 +14,16 @@ def run(tier):
     tr = c01trace.run_traces(tier)
     viols += tr['violations']
     mine = [v for v in viols if v['property'] == 'C02' or v['kind'] == 'conformance']
+    # last clause of C02: no row is "left out of the block whose outcome is reported to their request" - a promise completed
+    # with the outcome of an INSERT that did not carry its rows is observed by the same replay step as C01's acknowledgement rule
+    for v in viols:
+        if v['property'] == 'C01' and v.get('signature', '').startswith('replay|property|DoReturn'):
+            mine.append(dict(v, property='C02', signature='outcome-of-foreign-block|' + v['signature']))
     import props.c02blocks as c02blocks
     ex = c02blocks.run_blocks(tier)
     mine += [v for v in ex['violations'] if v['property'] == 'C02']
+    mine += [dict(v, property='C02', signature='outcome-of-foreign-block|' + v['signature']) for v in ex['violations']
+             if v['property'] == 'C01' and v.get('signature', '').startswith('blocks|ack-without-insert')]
     extra = ex['stats']
     cov = {
         'states': mc['states'], 'transitions': mc['transitions'],
